@@ -87,7 +87,9 @@ func tokenizeStream(src io.Reader, normalize bool, dict *dictionary, updateDict 
 	idx := 0
 	line := 1 // 1s-based count
 	deferredEOL := false
-	deferredWord := false
+	// deferredLines counts the hyphenated line breaks inside the word being
+	// accumulated; they are added to the line count once the word is complete.
+	deferredLines := 0
 	// the tokenizer uses a local dictionary to conserve memory while
 	// analyzing the input doc to avoid polluting the global dictionary
 	ld := newDictionary()
@@ -156,13 +158,16 @@ func tokenizeStream(src io.Reader, normalize bool, dict *dictionary, updateDict 
 						Line: line})
 				}
 				line++
-				if deferredWord {
-					// A word joined across a hyphenated line break ends this line:
-					// the deferred line break is accounted for here, the next line
-					// starts afresh.
-					deferredWord = false
-					line++
+				if deferredEOL {
+					// A hyphenated line break followed by an empty line.
+					deferredEOL = false
+					deferredLines++
 				}
+				// A word joined across hyphenated line breaks ends this line: the
+				// deferred line breaks are accounted for here, the next line starts
+				// afresh.
+				line += deferredLines
+				deferredLines = 0
 				continue
 			}
 
@@ -196,13 +201,13 @@ func tokenizeStream(src io.Reader, normalize bool, dict *dictionary, updateDict 
 				idx -= n
 
 				linebuf = append(linebuf, flushBuf(len(linebuf), obuf, normalize, ld))
-				if deferredWord {
+				if deferredLines > 0 {
 					appendToDoc(&doc, dict, line, linebuf, ld, normalize, updateDict, linebuf)
 					linebuf = nil
-					deferredWord = false
 					// Increment the line count now so the remainder token is credited
 					// to the previous line number.
-					line++
+					line += deferredLines
+					deferredLines = 0
 				}
 				obuf = make([]byte, 0)
 				continue
@@ -210,7 +215,7 @@ func tokenizeStream(src io.Reader, normalize bool, dict *dictionary, updateDict 
 
 			if deferredEOL {
 				deferredEOL = false
-				deferredWord = true
+				deferredLines++
 			}
 			// perform token mappings for punctuation to emulate
 			// normalizePunctuation. this returns a string and each rune needs to be
